@@ -141,7 +141,14 @@ def run(repo):
                 blk = n
         if blk is None:
             raise AnalysisError('%s: `if refresh:` rollback block not found' % fq)
-        txt = [ntext(s) for s in blk.body]
+        from .common import expand_locals
+        txt = []
+        for s_ in blk.body:
+            if isinstance(s_, ast.Assign) and len(s_.targets) == 1 and is_self_attr(s_.targets[0], 'last'):
+                # a local alias of self.vars[-1] is the same block
+                txt.append('self.last = ' + ntext(expand_locals(f3.node, s_.value)))
+            else:
+                txt.append(ntext(s_))
         last_assign = [t for t in txt if t.startswith('self.last =')]
         known = ('self.last = self.vars[-1].first + self.vars[-1].size', 'self.last = self.vars[-1].last')
         if last_assign and not any(t in known for t in last_assign):
